@@ -67,6 +67,7 @@ fn check_issuer(alg: Alg, ops: &[IssueSpec], st: &mut Stats) -> Verdict {
     let mut issuer = sut::new_issuer(alg, KeyId::Primary);
     let mut ok_steps = 0;
     let mut seen_strings: std::collections::HashSet<String> = Default::default();
+    let mut derived_strings: std::collections::HashSet<String> = Default::default();
     let mut prev_ok: Option<&IssueSpec> = None;
     let mut had_failure = false;
     for (i, op) in ops.iter().enumerate() {
@@ -115,6 +116,19 @@ fn check_issuer(alg: Alg, ops: &[IssueSpec], st: &mut Stats) -> Verdict {
                 let (parts, r) = check_issued(&spec, &tree, &issued).map_err(|f| Failure::new(format!("history:issuer:{}", f.signature), ctx(f.message)))?;
                 // nothing issued earlier on this instance may recur: disclosures carry fresh salts,
                 // decoy digests are fresh random values
+                // … nor be the hash of something issued earlier (a chained or counter-derived decoy
+                // links credentials and gives itself away)
+                for d in r.unmatched_sd.iter() {
+                    derived_strings.insert(crate::codec::digest(d));
+                }
+                for d in r.unmatched_sd.iter() {
+                    if derived_strings.contains(d) {
+                        return Err(Failure::new(
+                            "history:issuer:decoy-derived-from-earlier-output",
+                            ctx(format!("the decoy digest {} is the SHA-256 of a digest that appeared in an earlier result of this issuer instance (or earlier in this one)", d)),
+                        ));
+                    }
+                }
                 for d in parts.disclosures.iter().chain(r.unmatched_sd.iter()) {
                     if !seen_strings.insert(d.clone()) {
                         return Err(Failure::new(
